@@ -157,7 +157,15 @@ impl Gen {
                 _ => (rng.uniform(-100.0, 100.0) * 1000.0).round() / 1000.0,
             };
         }
-        match rng.below(16) {
+        match rng.below(18) {
+            16 | 17 => {
+                // a neighbour (1 or 2 ulp) of a value that OpenSCAD uses as a default or that code likes to
+                // special-case: "equal to the default up to a tolerance" must not be treated as the default
+                let base = [1.0f64, 10.0, 2.0, 100.0, 360.0, -1.0, 0.5, 180.0][rng.below(8) as usize];
+                let k = 1 + rng.below(2);
+                let bits = base.to_bits();
+                f64::from_bits(if rng.chance(0.5) { bits + k } else { bits - k })
+            }
             0 => 0.0,
             1 => -0.0,
             2 => 0.1 + 0.2,
